@@ -284,7 +284,10 @@ class ExprMixin:
             type_tuple = isinstance(val, ast.Tuple) and val.elts and all(
                 isinstance(e_, (ast.Name, ast.Attribute)) and (dotted(e_) or '').split('.')[-1] in _TYPE_NAMES
                 for e_ in val.elts)                 # _NUMBERS = (int, float, np.number): the second argument of isinstance
-            pkg_tuple = isinstance(val, (ast.Tuple, ast.List)) and val.elts and all(
+            if isinstance(val, ast.Call) and isinstance(val.func, ast.Name) and val.func.id in ('frozenset', 'set', 'tuple', 'list') \
+                    and len(val.args) == 1 and not val.keywords and isinstance(val.args[0], (ast.Tuple, ast.List, ast.Set)):
+                val = val.args[0]           # frozenset((a, b, c)): the members
+            pkg_tuple = isinstance(val, (ast.Tuple, ast.List, ast.Set)) and val.elts and all(
                 isinstance(e_, ast.Attribute) and isinstance(e_.value, ast.Name) and e_.value.id == 'lentil' for e_ in val.elts)
             #                                             _ALLOWED = (lentil.none, lentil.pupil, lentil.image): package constants
             if _constant_expr(val) or int_tuple or type_tuple or pkg_tuple or (getattr(self, 'literal_tables', False) and isinstance(val, (ast.Dict, ast.Tuple, ast.List, ast.Set, ast.DictComp, ast.ListComp))
